@@ -79,10 +79,10 @@ def _(c):
     # ---- C05: what the caller gets back is what the target returned at this call, at the image of x --------------
     c.ens("returns_this_calls_value", "implies(self.Xn == old(self.Xn) + 1 or not truthy(record_duplicate_data), result[0] == retval(ghost.n_calls))",
           top=True, props=["C05", "C12"])
-    c.ens("returns_this_calls_sd", "implies(truthy(self.he_noise_flag), result[1] == retsd(ghost.n_calls))", top=True, props=["C05"])
+    c.ens("returns_this_calls_sd", "implies(truthy(self.he_noise_flag), result[1] == retsd(ghost.n_calls))", top=True, props=["C05", "C15"])
     # C10: an evaluation is accepted (counted, logged, returned) only with a positive reported SD when noise is specified
     c.ens("accepted_sd_is_positive", "implies(truthy(self.he_noise_flag), result[1] > 0 and retsd(ghost.n_calls) > 0)", top=True, props=["C10"])
-    c.ens("called_at_image_of_x", "pteq(argpt(ghost.n_calls), invt(pt(x)))", top=True, props=["C05", "C01", "C02"])
+    c.ens("called_at_image_of_x", "pteq(argpt(ghost.n_calls), invt(pt(x)))", top=True, props=["C05", "C01", "C02", "C15"])
     c.ens("he_flag_kept", "truthy(self.he_noise_flag) == truthy(old(self.he_noise_flag))")
     # ---- exceptional exits (C10): the target's own exception, or ValueError for an invalid value -----------------------
     XENS = {"not_counted": "self.func_count == old(self.func_count)", "calls": "ghost.n_calls >= old(ghost.n_calls) and ghost.n_calls <= old(ghost.n_calls) + 1",
